@@ -185,6 +185,19 @@ def _execute(prog, plan=None, rnd=None, switch_prob=0.0, files=None, pct=None):
                             elif name == 'abandon':
                                 # this thread is the one that iterates the connection: it stops (break / close())
                                 g.close()
+                            elif name == 'reconnect':
+                                # another thread connects the same object again and runs the new loop up to its first Poll
+                                # (atomic for the scheduler: the programs that use it are about what happens
+                                # around the reconnect, not inside it)
+                                s.atomic = getattr(s, 'atomic', 0) + 1
+                                try:
+                                    g2 = ws.connect(session_class=simnet.SimSession, **ckw)
+                                    out.gen2 = g2
+                                    for ev2 in g2:
+                                        if ev2.name in ('poll', 'connect_fail', 'disconnected'):
+                                            break
+                                finally:
+                                    s.atomic -= 1
                             else:
                                 getattr(ws, name)(*call[1:])
                             rec['ok'] = True
@@ -217,6 +230,15 @@ def _execute(prog, plan=None, rnd=None, switch_prob=0.0, files=None, pct=None):
                 except (StopIteration, simnet.Quiesced):
                     loop_events.append('<end>')
 
+            if prog.get('on_socket_close'):
+                # another thread acts while the abandoning thread is inside socket.close(): one-shot, atomic
+                def _on_close(_sock, _calls=prog['on_socket_close']):
+                    s.atomic = getattr(s, 'atomic', 0) + 1
+                    try:
+                        make_app(99, _calls)()
+                    finally:
+                        s.atomic -= 1
+                w.close_hook = _on_close
             first_tid = int((plan or {}).get(-1, 0)) if plan else 0
             if loop:
                 s.spawn('loop', loop_fn)
@@ -242,10 +264,12 @@ def _execute(prog, plan=None, rnd=None, switch_prob=0.0, files=None, pct=None):
     return out
 
 
-def wire_frames(w):
-    tx = bytes(w.conns[0].tx)
+def wire_frames(w, conn=0):
+    if len(w.conns) <= conn:
+        return [], b'', []
+    tx = bytes(w.conns[conn].tx)
     i = tx.find(b'\r\n\r\n')
-    return refws.decode_client_stream(tx[i + 4:])
+    return refws.decode_client_stream(tx[i + 4:]) if i >= 0 else ([], b'', [])
 
 
 def expected_payload(call):
@@ -353,6 +377,10 @@ def judge_reconnect(prog, out, detail):
         if r['exc_type'] is not None and not issubclass(r['exc_type'], env.lerrors.WebSocketError):
             detail['exception'] = r['exc']
             return 'racing-call-raised-non-websocket-error:%s' % r['exc_type'].__name__, detail, None
+    for c in w.conns:
+        if c.tx and not bytes(c.tx).startswith((b'GET ', b'CONNECT ')):
+            detail['first_bytes'] = bytes(c.tx[:40])
+            return 'frame-written-before-the-upgrade-request', detail, None
     walls = []
     for c in w.conns[:2]:
         tx = bytes(c.tx)
@@ -457,6 +485,8 @@ def account(prog, out, judge, acc, case, mode, plan):
 
 
 def mechanism(prog, key):
+    if prog.get('wire_conn') and key in ('second-close-frame-written', 'data-frame-after-close'):
+        return 'tear-down-of-the-previous-loop-touched-the-flags-of-the-next-connection'
     if prog.get('z') and key in ('peer-cannot-inflate-in-wire-order', 'message-missing-or-garbled'):
         return 'compress-and-write-not-atomic'
     if key == 'wire-not-a-sequence-of-whole-frames':
